@@ -24,7 +24,7 @@ ENV = dict(os.environ, CARGO_NET_OFFLINE='true')
 ENV.pop('RUSTFLAGS', None)
 NOVEC = '-C no-vectorize-slp -C no-vectorize-loops'
 CBMC_BASE = ['--no-standard-checks', '--bounds-check', '--pointer-check', '--unwinding-assertions',
-             '--unwindset', 'vf_havoc_c.0:1100', '--sat-solver', 'cadical', '--json-ui']
+             '--unwindset', 'vf_havoc_c.0:1100', '--sat-solver', 'cadical', '--object-bits', '10', '--json-ui']
 SLICE = ['--slice-formula']   # cone-of-influence reduction; not used for trace runs (the replay log must stay in the formula)
 JOBS = int(os.environ.get('VERIF_JOBS', '16'))
 
@@ -38,8 +38,9 @@ def log(*a):
 
 
 # ----------------------------------------------------------------------------------------- build
-def cargo(args, target, rustflags=None, cwd=HARNESS, timeout=1800):
+def cargo(args, target, rustflags=None, cwd=HARNESS, timeout=1800, extra_env=None):
     env = dict(ENV, CARGO_TARGET_DIR=os.path.join(BUILD, target))
+    env.update(extra_env or {})
     if rustflags:
         env['RUSTFLAGS'] = rustflags
     p = subprocess.run(['cargo'] + args, cwd=cwd, env=env, stdout=subprocess.PIPE, stderr=subprocess.STDOUT,
@@ -60,7 +61,7 @@ def build_ir(profile, features, lto=False):
     target = 'L-%s%s' % (profile, '-lto' if lto else '')
     prof = ['--release'] if profile == 'rel' else ['--profile', 'dbg']
     pdir = 'release' if profile == 'rel' else 'dbg'
-    feats = ','.join(['cbmc'] + sorted(features))
+    feats = ','.join(['cbmc'] + sorted(features) + (['lto_std'] if lto else []))
     deps = os.path.join(BUILD, target, pdir, 'deps')
     for f in glob.glob(os.path.join(deps, 'vh-*.ll')):
         os.remove(f)
@@ -68,9 +69,9 @@ def build_ir(profile, features, lto=False):
     os.utime(os.path.join(HARNESS, 'src', 'lib.rs'))
     args = ['rustc', '--offline', '--lib'] + prof + ['--features', feats, '--', '--emit=llvm-ir']
     if lto:
-        args = ['rustc', '--offline', '--lib', '--crate-type', 'staticlib'] + prof + ['--features', feats, '--',
-                '--emit=llvm-ir', '-C', 'lto=fat', '-C', 'embed-bitcode=yes']
-    rc, out = cargo(args, target, rustflags=NOVEC)
+        args = ['rustc', '--offline', '--lib', '--crate-type', 'staticlib'] + prof + ['--features', feats, '--', '--emit=llvm-ir']
+    lto_env = {'CARGO_PROFILE_RELEASE_LTO': 'fat', 'CARGO_PROFILE_DBG_LTO': 'fat'} if lto else None
+    rc, out = cargo(args, target, rustflags=NOVEC, extra_env=lto_env)
     if rc != 0:
         raise Inconclusive('cargo build of the harness crate failed (profile %s, features %s):\n%s' % (profile, feats, out[-3000:]))
     lls = glob.glob(os.path.join(deps, 'vh-*.ll'))
@@ -287,7 +288,7 @@ def solve(res, caps):
             key = '%s.%s' % (m.group(1), m.group(2))
             cur = loopb.get(key, unwind)
             if cur < caps['max_unwind']:
-                loopb[key] = min(caps['max_unwind'], cur + (2 if cur < 12 else 6))
+                loopb[key] = min(caps['max_unwind'], max(cur + 2, cur * 2 if rounds > 1 else cur + 2))
                 grew = True
         if not grew or rounds > 12:
             break
